@@ -181,11 +181,23 @@ def run(ctx):
             vlib.report(ctx, {"kind": "queue-vs-spec", "op": m["op"]}, {"behaviour": m["steps"], "expected": m["expected"], "got": m["got"]})
         cov.update(queue_behaviours_replayed=qj["behaviours"], queue_steps_compared=qj["steps"], queue_model_states=q.distinct)
         validated, events, delivered, executed, samples = 0, 0, 0, 0, []
+        sib_checks = 0
         plans = [("rand%d" % i, 45 if quick else 140) for i in range(1 if quick else 4)]
         for i, (tag, steps) in enumerate(plans):
             sub = dbdir / tag; sub.mkdir()
             seed = ctx.seed * 100 + i
-            tr, info = zc.run_chaindrv(ctx, drv, "c04-" + tag, seed, steps, sub, extra=["-trimdepth", 4])
+            tr, info = zc.run_chaindrv(ctx, drv, "c04-" + tag, seed, steps, sub, extra=["-trimdepth", 4, "-primesiblings", 9])
+            # "not altered in transit other than protocol conversion repricing": two prime blocks on the same parent confirming the same
+            # set must hand down identical conversions (the second pass over the cached rollups starts from the original amounts)
+            for pr in info.get("problems") or []:
+                if pr["kind"] == "conversion-repriced-differently-by-sibling-prime-block":
+                    vlib.report(ctx, {"kind": pr["kind"]}, {"seed": seed, "problem": pr, "trace": str(tr)})
+                elif pr["kind"] in ("own-block-rejected", "prime-sibling-scenario-block-refused"):
+                    # the node cannot append a block it built itself in a scenario whose blocks differ only in the cross-chain transactions they
+                    # emit / confirm / execute: what the node keeps about ETXs in transit (pending sets, rollups, inbound sets, queue) no longer
+                    # matches what its own blocks commit to - the ETXs those blocks confirm are not delivered on this node
+                    vlib.report(ctx, {"kind": "own-block-refused-in-etx-scenario"}, {"seed": seed, "problem": pr, "aborted": info.get("aborted"), "trace": str(tr)})
+            sib_checks += info.get("sibling_conversion_checks", 0)
             ok, mm = validate_etx_trace(ctx, tag, tr)
             rows = vlib.read_ndjson(tr)
             if ok:
@@ -224,7 +236,7 @@ def run(ctx):
         rejected = sum(v for (m, r), v in outcomes.items() if r.startswith("rejected"))
         if delivered == 0 or executed == 0 or rejected < 8:
             raise Broken("too little ETX activity: delivered=%d executed=%d adversarial rejections=%d" % (delivered, executed, rejected))
-        cov.update(traces_validated_against_impl=validated + multi_traces, blocks_checked=events, etxs_delivered=delivered, etxs_executed=executed,
+        cov.update(sibling_prime_conversion_comparisons=sib_checks, traces_validated_against_impl=validated + multi_traces, blocks_checked=events, etxs_delivered=delivered, etxs_executed=executed,
                    adversarial_outcomes={"%s -> %s" % k: v for k, v in sorted(outcomes.items())}, samples=(samples + [x for x in cov.get("multi_trace_samples", []) if "b" in x]) or [{"note": "none"}],
                    rule="real prime/region/zone node at expansion 0 with forks at every level: for every appended block (any branch) the inbound set made "
                         "available by the dominant chain, the executed inbound ETXs and the destination queue read from the state committed by EtxSetRoot "
